@@ -603,6 +603,9 @@ func main() {
 	})
 	ctx.Jobs("tempo-values", 16, func(j int) { tempoValues(j, 16) })
 	ctx.Jobs("long-maps", 16, func(j int) { longMaps(j, 16) })
+	if !ctx.IsChild() {
+		ctx.RacePairs("timeat")
+	}
 	ctx.Sample(map[string]interface{}{"resolution": 480, "tempo_events(gap,us)": [][2]int{{480, 250000}, {0, 500001}, {1, 16777215}}, "queries": "0, every tempo tick +-2, 2^20, 2^31-1"})
 	ctx.Guard(ctx.NontrivialCount() > 1000, "too few multi-segment queries")
 	ctx.Finish("all tempo maps of 0..3/4 tempo events over gaps {0,1,479,480,100000} x microseconds-per-quarter {0,1,250000,500000,500001,0xFFFFFF} for 6 resolutions, queried at 0, every tempo tick +-2, 2^20, 2^31-1 within a 100-day horizon against the exact rational integral; every 61st (thorough: every) 24-bit tempo value as a single event queried far out and as two events with neighbouring values; iterator times; Ticks(Duration(n)) for boundary n and n in 0..200000 on four (resolution, tempo) pairs; non-trivial = queries on maps with at least two tempo events")
